@@ -93,6 +93,13 @@ func (vc *VC) heapWF(name, sym, alloc string) string {
 			}
 		}
 		return f
+	case strings.HasPrefix(name, "G$"):
+		// ghost sequences: only the shape of the slice value (0 <= len), nothing about the elements
+		if et == nil {
+			return "true"
+		}
+		x := Term{S: "(select " + sym + " r!h)", T: et, Sort: vc.u.SortOf(et)}
+		return "(forall ((r!h Int)) (! (and (>= " + vc.sliceLen(x) + " 0) (<= " + vc.sliceLen(x) + " 9223372036854775807)) :pattern ((select " + sym + " r!h))))"
 	case name == "Chh":
 		return "(forall ((r!h Int)) (! (>= (select " + sym + " r!h) 0) :pattern ((select " + sym + " r!h))))"
 	case strings.HasPrefix(name, "Chb$"):
